@@ -591,8 +591,72 @@ def obligations_O5(rep):
                 nm += 1
                 if not (t.is_same(tr) if hasattr(t, "is_same") else t == tr):
                     bad_mixed.append((kind, ta, tb, str(t), str(tr)))
+        # select / real / imag over components of different widths
+        for ta, tb in (("float32", "float64"), ("float64", "float32"), ("float16", "float64")):
+            ctx = fa.Context(paths=[])
+            x, y, c = ctx.symbol("x", ta), ctx.symbol("y", tb), ctx.symbol("c", "boolean")
+            for label, mk in (("select", lambda: E.Expr(ctx, "select", (c, x, y))), ("real(complex)", lambda: E.Expr(ctx, "real", (E.Expr(ctx, "complex", (x, y)),))), ("imag(complex)", lambda: E.Expr(ctx, "imag", (E.Expr(ctx, "complex", (x, y)),)))):
+                try:
+                    e = mk()
+                    t = e.get_type()
+                    r = E.normalize_like(e)
+                    tr = r.get_type()
+                except Exception as ex:
+                    skipped.append(repr(ex)[:60])
+                    continue
+                nm += 1
+                if not (t.is_same(tr) if hasattr(t, "is_same") else t == tr):
+                    bad_mixed.append((label, ta, tb, str(t), str(tr)))
     rep.add(core.decided("C07/O5/normalize-like-preserves-type/mixed-operand-types", PROP, not bad_mixed, functions=fn, text="%d binary nodes over operands of different types: the reference operand chosen by normalize_like has the node's type (a constant like such a node keeps its reference type)" % nm, detail=dict(bad=bad_mixed[:8], n=nm), meta=dict(clause="O5-mixed", bad=bad_mixed[:8])))
     rep.add(core.decided("C07/O5/normalize-like-preserves-type", PROP, not bad, functions=fn, text="%d homogeneously typed expressions (every kind over float32/64, complex64/128 leaves, two levels): normalize_like keeps get_type and is_complex" % n, detail=dict(bad=bad[:8], n=n), meta=dict(clause="O5", bad=bad[:8])))
+
+
+# --------------------------------------------------------------------------------------------- O6 concrete cases
+def obligations_concrete(rep):
+    """the real hash-consing on concrete expressions: structurally different expressions are different objects, structurally
+    identical ones the same object - cases the symbolic key obligations abstract from (repeated operand objects, reference
+    types given as type objects of different widths, parents of lists that differ in repetition or length)"""
+    import warnings
+
+    import functional_algorithms as fa
+
+    bad, n = [], 0
+    with warnings.catch_warnings():
+        warnings.simplefilter("ignore")
+        ctx = fa.Context(paths=[])
+        x, y, z = ctx.symbol("x", "float64"), ctx.symbol("y", "float64"), ctx.symbol("z", "float64")
+        lists = {"[x,x,y]": [x, x, y], "[x,y,y]": [x, y, y], "[x,y]": [x, y], "[x,y,x]": [x, y, x], "[y,x]": [y, x], "[x,y,z]": [x, y, z], "[x,y,z,x]": [x, y, z, x], "[x,y,z,y]": [x, y, z, y]}
+        objs = {k: ctx.list(v) for k, v in lists.items()}
+        for a, b in itertools.combinations(sorted(objs), 2):
+            n += 1
+            if objs[a] is objs[b]:
+                bad.append("list%s is list%s" % (a, b))
+            for what, mk in (("item1", lambda L: ctx.item(L, 1)), ("len", lambda L: ctx.len(L)), ("item0", lambda L: ctx.item(L, 0))):
+                n += 1
+                pa, pb = mk(objs[a]), mk(objs[b])
+                if pa is pb:
+                    bad.append("%s(list%s) is %s(list%s)" % (what, a, what, b))
+        for k, v in lists.items():
+            n += 1
+            if ctx.list(list(v)) is not objs[k]:
+                bad.append("list%s built twice gives two objects" % k)
+        # operators with repeated operands
+        for kind in ("add", "maximum", "atan2", "hypot"):
+            f = (lambda p, q: p + q) if kind == "add" else getattr(ctx, kind)
+            n += 3
+            if f(x, x) is f(x, y) or f(x, y) is f(y, y) or f(x, y) is f(y, x) and kind in ("atan2",):
+                bad.append("%s with a repeated operand aliases another node" % kind)
+            if f(x, y) is not f(x, y):
+                bad.append("%s(x, y) built twice gives two objects" % kind)
+        # reference types given as type objects / names of different widths
+        for ta, tb in ((numpy.float32, numpy.float64), ("float32", "float64"), ("complex64", "complex128"), (numpy.float16, numpy.float32)):
+            n += 1
+            c1, c2 = ctx.constant(0.1, ta), ctx.constant(0.1, tb)
+            if c1 is c2 or str(c1.get_type()) == str(c2.get_type()):
+                bad.append("constant(0.1, %r) and constant(0.1, %r) are not distinguished (types %s, %s)" % (ta, tb, c1.get_type(), c2.get_type()))
+            if ctx.constant(0.1, ta) is not c1:
+                bad.append("constant(0.1, %r) built twice gives two objects" % (ta,))
+    rep.add(core.decided("C07/O6/concrete-sharing", PROP, not bad, functions=("expr.Expr.__new__", "context.Context.constant", "expr.Expr._two_level_intkey"), text="%d concrete pairs built through the real API: different structure => different objects, same structure => same object" % n, detail=dict(bad=bad[:8]), meta=dict(clause="O6", bad=bad[:8])))
 
 
 # --------------------------------------------------------------------------------------------- replay / main
@@ -657,7 +721,7 @@ def build(tier):
     rep.extraction_drops.append("Expr.__new__'s operand normalisation (normalize, context.alt constant folding) is not under contract here; the key functions, registration, Type.__new__ and normalize_like are")
     for f, c in (("expr.Expr._two_level_intkey", "injective on registered operands"), ("expr.Expr._compute_serialized", "key equality <=> structural identity"), ("context.Context._register_expression", "lookup-or-register, frame, fresh id"), ("typesystem.Type.__new__", "singleton per (kind, param)"), ("expr.normalize_like", "reference type preserved")):
         rep.under_contract(f, c)
-    for f in (obligations_O1, obligations_O2, obligations_O3, obligations_O4, obligations_O5):
+    for f in (obligations_O1, obligations_O2, obligations_O3, obligations_O4, obligations_O5, obligations_concrete):
         try:
             f(rep)
         except symrun.Unsupported as u:
